@@ -14,6 +14,7 @@ import (
 	"strings"
 	"sync"
 	"syscall"
+	"time"
 )
 
 // VerifHook, when non-nil, receives one event per observable effect of the
@@ -87,6 +88,9 @@ func init() {
 		}
 		if verifSigAt > 0 && verifSeq == verifSigAt {
 			syscall.Kill(os.Getpid(), verifSig)
+			// give the signal handler's goroutine time to get as far as it
+			// can while this one is still where the effect happened
+			time.Sleep(100 * time.Millisecond)
 		}
 	}
 }
